@@ -18,13 +18,14 @@ GenInit == Init /\ hist = <<>>
 GenNext ==
     \/ \E w \in Workers_def : Announce(w) /\ H(<<"announce", w, 0>>)
     \/ \E w \in Workers_def : PeerDrop(w) /\ H(<<"drop", w, 0>>)
+    \/ \E w \in Workers_def : Join(w) /\ H(<<"join", w, 0>>)
     \/ \E w \in Workers_def, n \in 1..(K_def * 3) : DeliverUp(w, n) /\ H(<<"up", w, n>>)
     \/ \E w \in Workers_def, n \in 1..(K_def * 3) : DeliverDown(w, n) /\ H(<<"down", w, n>>)
     \/ \E w \in Workers_def : (ServerRelay(w) \/ ClientLookup(w)) /\ UNCHANGED hist
 GenSpec == GenInit /\ [][GenNext]_<<vars, hist>>
 GenDone == (\A w \in Workers_def : todo[w] = <<>>) /\ Drained
 GenEmit == ~GenDone \/ PrintT("@@" \o ToJson(hist))
-GenBound == Cardinality(Workers_def \ alive) <= 1 /\ Len(hist) <= GenDepth
+GenBound == Cardinality(Workers_def \ alive) <= 1 /\ joins <= 1 /\ Len(hist) <= GenDepth
 """
 
 CONFIGS = {
@@ -37,7 +38,7 @@ CONFIGS = {
 
 def gen_behaviours(workers, idsof, K, num, seed, depth=40, timeout=600):
     consts = {"Workers": set(workers), "IdsOf": {w: list(v) for w, v in idsof.items()}, "K": K, "Exact": True}
-    text = tlc.mc_module("MCN", "Notifier", ["todo", "upnet", "upbuf", "dnnet", "dnbuf", "alive", "looked"], consts,
+    text = tlc.mc_module("MCN", "Notifier", ["todo", "upnet", "upbuf", "dnnet", "dnbuf", "alive", "looked", "owed", "joins"], consts,
                          extends=("Integers", "Sequences", "FiniteSets", "TLC", "Json"), extra="GenDepth == %d\n" % depth + GEN_EXTRA)
     with tlc.Workdir(prefix="ngen-") as wd:
         wd.write("MCN.tla", text)
@@ -195,6 +196,22 @@ async def run_behaviour(workers, idsof, K, behaviour, jitter=None):
                     wire_up[w].clear()
                     wire_down[w].clear()
                     trace.append({"a": "Drop", "w": w})
+            elif kind == "join":
+                if w not in alive:
+                    # a new connection of worker w: fresh streams, a new server-side handler and a new client object
+                    await settle()
+                    reader_s[w] = asyncio.StreamReader()
+                    reader_c[w] = asyncio.StreamReader()
+                    wire_up[w].clear()
+                    wire_down[w].clear()
+                    tasks.append(asyncio.create_task(server.handle_notify(reader_s[w], FakeWriter(wire_down[w].extend, ("peer", w)))))
+                    cl = notifier.NotifyClient(StubStorage(w, log, known), port=7000 + w)
+                    cl.log = _Quiet()
+                    clients[w] = cl
+                    tasks.append(asyncio.create_task(cl.connect()))
+                    alive.add(w)
+                    await settle()
+                    trace.append({"a": "Join", "w": w})
             await settle()
             flush_log()
         # deliver whatever is still in flight (coalesced), then the run is over
